@@ -289,5 +289,6 @@ from .c16 import C16  # noqa: E402
 from .c18 import C18  # noqa: E402
 from .c20 import C20  # noqa: E402
 from .c12 import C12  # noqa: E402
+from .c11 import C11  # noqa: E402
 
-ALL = {c.id: c for c in [C01, C02, C03, C05, C06, C07, C08, C09, C10, C12, C13, C14, C15, C16, C17, C18, C19, C20]}
+ALL = {c.id: c for c in [C01, C02, C03, C05, C06, C07, C08, C09, C10, C11, C12, C13, C14, C15, C16, C17, C18, C19, C20]}
